@@ -17,6 +17,16 @@ ASSUMPTIONS = ['an unsigned zero inferring u0/0 is minimal and accepted', 'unsig
                'n_word given: n_frac = min(n_word - sign - n_int_needed, exact n_frac) where n_int_needed is taken at the exact fraction length']
 
 
+def norm(d):
+    num, s = d
+    if num == 0:
+        return (0, 0)
+    while s > 0 and num % 2 == 0:
+        num //= 2
+        s -= 1
+    return (num, s)
+
+
 def exact_frac(ds):
     return min_frac_bits(ds)
 
@@ -69,6 +79,7 @@ def carrier_values(ds, carrier):
 
 def judge(acc, ds, signed_arg, pattern, carrier, part):
     """pattern: dict of given sizes"""
+    ds = [norm(d) for d in ds]
     if any(not is_exact_double(d) for d in ds):
         acc.skipped += 1
         return
@@ -144,7 +155,7 @@ def judge_capped(acc, f, signed_arg, part):
     stored = Fraction(c) * Fraction(2) ** (-gf.n_frac)
     lsb = Fraction(2) ** (-gf.n_frac)
     inexact = stored != v
-    need = infer([dy(f)], signed)
+    need = infer([norm(dy(f))], signed)
     acc.outcome('capped' if need.n_word > 64 else 'uncapped')
     if gf.n_word > 64:
         acc.violation('cap', case, 'Fxp(%r) inferred %s: word exceeds the configured maximum 64' % (f, gf.dtype), {'part': part})
@@ -154,7 +165,8 @@ def judge_capped(acc, f, signed_arg, part):
     elif fl[2] != inexact:
         acc.violation('cap_flag', case, 'Fxp(%r) -> %s: inaccuracy flag %s but stored value %s the input' % (f, gf.dtype, fl[2], 'differs from' if inexact else 'equals'),
                       {'part': part})
-    elif need.n_word <= 64 and gf != need:
+    elif need.n_word <= 64 and gf != need and need.n_frac <= 20 and abs(norm(dy(f))[0]) < (1 << 40):
+        # minimality / exactness is only claimed for dyadics k/2^f with f <= 20, |k| < 2^40 (for other doubles only the cap clause)
         acc.violation('format', case, 'Fxp(%r) inferred %s, minimal exact format is %s' % (f, gf.dtype, need.dtype), {'part': part, 'pattern': 'none'})
     acc.sample(case, 1)
 
@@ -186,6 +198,7 @@ PATTERNS_KEYS = ('none', 'n_word', 'n_frac', 'n_int+n_frac', 'n_int+n_word')
 
 def patterns_for(ds, signed):
     """the five 'unspecified' patterns with the stated ranges"""
+    ds = [norm(d) for d in ds]
     ef = exact_frac(ds)
     ni = int_bits_needed(ds, signed, ef)
     sign = 1 if signed else 0
